@@ -26,6 +26,11 @@ type Case16B struct {
 	Procs  int    `json:"procs,omitempty"`
 	Busy   int    `json:"busy,omitempty"`
 	Rounds int    `json:"rounds,omitempty"`
+	// Sparse: the record lies in the arena of the huge bodies (huge.go: zeroed address space that the operating system
+	// backs lazily) and only blocks of 4 KiB at the start of the body, at every multiple of 2^28 and at its end carry the
+	// pattern, the rest is zero - the way a body of 2 GiB and more is affordable: the input costs no memory, only the
+	// copies that newBuf=true makes do.
+	Sparse bool `json:"sparse,omitempty"`
 }
 
 // Hash identifies the case.
@@ -39,6 +44,9 @@ type Info16B struct {
 	Busy   int
 	Copies int   // newBuf=true results compared in full right after the call
 	Bytes  int64 // their total size
+	Sparse bool
+	// NoArena: the address space for a sparse case could not be had - nothing was decided
+	NoArena bool
 }
 
 // NonTrivial: the body is at least 2^25 bytes and was copied at least once.
@@ -47,7 +55,16 @@ func (i Info16B) NonTrivial() bool { return i.Body >= 1<<25 && i.Copies > 0 }
 // Classes for the histogram.
 func (i Info16B) Classes() []string {
 	c := append(i.Info16.Classes(), "big_record")
+	if i.Sparse {
+		c = append(c, "big_record_sparse_content_in_lazily_backed_arena")
+	}
 	switch {
+	case i.Body >= 1<<32:
+		c = append(c, "big_record_body_ge_4GiB")
+	case i.Body >= 1<<31:
+		c = append(c, "big_record_body_2GiB_to_4GiB")
+	case i.Body >= 1<<30:
+		c = append(c, "big_record_body_1GiB_to_2GiB")
 	case i.Body >= 64<<20:
 		c = append(c, "big_record_body_ge_64MiB")
 	case i.Body >= 32<<20:
@@ -93,6 +110,9 @@ func patternFill(b []byte, seed uint64) {
 }
 
 var bigScratch []byte
+
+// sparseBlock is the size of the patterned blocks of a sparse record.
+const sparseBlock = 4 << 10
 
 const bigChunk = 1 << 20
 
@@ -158,26 +178,50 @@ var busySink atomic.Uint64
 // and before the calling goroutine gives up its processor. Each copy is dropped and collected before the next call, so
 // the process holds the input and one result at a time.
 func Run16B(c Case16B) (info Info16B, v *vstat.Violation) {
-	if c.L < 0 || c.L > 1<<30 || c.Pad < 0 || c.Pad > 8 || c.More < 0 || c.More > 1<<16 || c.Procs < 0 || c.Procs > 256 || c.Busy < 0 || c.Busy > 256 {
+	maxL := 1 << 30
+	if c.Sparse {
+		maxL = 1 << 33
+	}
+	if c.L < 0 || c.L > maxL || c.Pad < 0 || c.Pad > 8 || c.More < 0 || c.More > 1<<16 || c.Procs < 0 || c.Procs > 256 || c.Busy < 0 || c.Busy > 256 {
 		panic(fmt.Sprintf("bad Case16B %+v", c))
 	}
 	prefix := PutUvarint(nil, uint64(c.L), c.Pad)
 	n := len(prefix) + c.L + c.More
-	ReserveLong(8 + n + 32)
-	a := longArena[: 8+n+32 : 8+n+32]
-	for i := 0; i < 8; i++ {
-		a[i] = 0xA5
+	var in []byte
+	if c.Sparse {
+		if !ReserveArena(n + arenaPage) {
+			return Info16B{Body: c.L, Sparse: true, NoArena: true}, nil
+		}
+		in = zeroArena[:n:n]
+		copy(in, prefix)
+		defer releaseArena(0, len(prefix)+sparseBlock)
+		body := in[len(prefix) : len(prefix)+c.L]
+		for off := 0; off < c.L; off += 1 << 28 {
+			blk := body[off:min(off+sparseBlock, c.L)]
+			patternFill(blk, c.Seed+uint64(off))
+			defer releaseArena(len(prefix)+off, len(blk))
+		}
+		if c.L > sparseBlock {
+			patternFill(body[c.L-sparseBlock:], c.Seed+uint64(c.L))
+		}
+		defer releaseArena(n-c.More-min(c.L, sparseBlock), c.More+min(c.L, sparseBlock))
+	} else {
+		ReserveLong(8 + n + 32)
+		a := longArena[: 8+n+32 : 8+n+32]
+		for i := 0; i < 8; i++ {
+			a[i] = 0xA5
+		}
+		for i := 8 + n; i < len(a); i++ {
+			a[i] = 0xA5
+		}
+		in = a[8 : 8+n : 8+n]
+		copy(in, prefix)
+		patternFill(in[len(prefix):len(prefix)+c.L], c.Seed)
 	}
-	for i := 8 + n; i < len(a); i++ {
-		a[i] = 0xA5
-	}
-	in := a[8 : 8+n : 8+n]
-	copy(in, prefix)
-	patternFill(in[len(prefix):len(prefix)+c.L], c.Seed)
 	for i := len(prefix) + c.L; i < n; i++ {
 		in[i] = byte(0xC0 + i%7)
 	}
-	info = Info16B{Info16: Classify(in), Body: c.L, Procs: c.Procs, Busy: c.Busy}
+	info = Info16B{Info16: Classify(in), Body: c.L, Procs: c.Procs, Busy: c.Busy, Sparse: c.Sparse}
 
 	if c.Procs > 0 {
 		defer runtime.GOMAXPROCS(runtime.GOMAXPROCS(c.Procs))
